@@ -124,6 +124,16 @@ func (e *execState) refine(bo *blockObs) bool {
 	}
 	// begin-block transfers
 	implBegin := normCalls(bo.Begin)
+	if ok, _ := sameTransfers(bo.BeginFx.Transfers, implBegin); !ok && e.orderAmbiguityOnly(bo, implBegin) {
+		// L8, payments: in an order book of more than 12 bids the order of bids *within* a price level is
+		// not specified (the implementation's sort is only stable up to 12), and when a bidder's allowance
+		// cuts among several of that bidder's bids at one level, which of them is cut decides how the
+		// per-bid round-ups add up: payments may differ by less than one unit per bid while allocations are
+		// the same. The model cannot predict that sum; the run goes on without it (the payment bounds of
+		// C04 are checked from the implementation's own records either way).
+		res.Stats.Relax["L8_payment_order"]++
+		return true
+	}
 	if ok, d := sameTransfers(bo.BeginFx.Transfers, implBegin); !ok {
 		props := e.classifyBeginMismatch(bo, implBegin)
 		var rest []string
@@ -317,6 +327,42 @@ func (e *execState) classifyBeginMismatch(bo *blockObs, impl []MTransfer) []stri
 		}
 	}
 	return props
+}
+
+// orderAmbiguityOnly: every auction whose begin-block transfers differ from the model's is a batch
+// auction with more than 12 bids in which a cap cut a bidder with several bids (model flag), and the
+// coins allocated to each bidder are the same on both sides.
+func (e *execState) orderAmbiguityOnly(bo *blockObs, impl []MTransfer) bool {
+	model := bo.BeginFx.Transfers
+	some := false
+	for _, a := range e.model.Auctions {
+		a := a
+		own := func(ts []MTransfer, f func(t MTransfer) bool) []MTransfer {
+			var out []MTransfer
+			for _, t := range ts {
+				if f(t) {
+					out = append(out, t)
+				}
+			}
+			return out
+		}
+		all := func(t MTransfer) bool { return t.From == a.SellEscrow || t.From == a.PayEscrow || t.From == a.VestEscrow }
+		if same, _ := sameTransfers(own(model, all), own(impl, all)); same {
+			continue
+		}
+		if a.Type != TypeBatch || !a.AmbiguousCap || len(a.Bids) <= 12 {
+			return false
+		}
+		alloc := func(t MTransfer) bool { return t.From == a.SellEscrow }
+		if same, _ := sameTransfers(own(model, alloc), own(impl, alloc)); !same {
+			return false
+		}
+		if same, _ := sameTransfers(own(model, func(t MTransfer) bool { return t.From == a.VestEscrow }), own(impl, func(t MTransfer) bool { return t.From == a.VestEscrow })); !same {
+			return false
+		}
+		some = true
+	}
+	return some
 }
 
 func bigMapStr(m map[string]*big.Int) string {
